@@ -134,23 +134,44 @@ type rec struct {
 	M meta
 }
 
+// poisonBase is the first device number of the "poison" devices: their IDs
+// are not valid UTF-8, so that protobuf refuses to marshal their records and
+// stream.Send fails deterministically at that record (the only way to make the
+// real gRPC stream fail in Send at a chosen record without a hook).  The
+// recorder itself accepts any agd.DeviceID.
+const poisonBase = 1 << 20
+
+// devNames maps every ID handed out by devID back to its device number.
+var devNames sync.Map
+
 // devID names device d.  Devices 2i and 2i+1 differ only in the case of their
-// letters: they are different devices.
-func devID(d int) agd.DeviceID {
-	if d%2 == 1 {
-		return agd.DeviceID(fmt.Sprintf("DEV%04d", d-1))
+// letters: they are different devices.  Some devices have unusual but legal
+// map keys: the empty ID, non-ASCII letters with a NUL and a space, a long ID.
+func devID(d int) (id agd.DeviceID) {
+	switch {
+	case d >= poisonBase:
+		id = agd.DeviceID(fmt.Sprintf("bad\xff%d", d))
+	case d == 6:
+		id = ""
+	case d%16 == 12:
+		id = agd.DeviceID(fmt.Sprintf("дев\x00 %d", d))
+	case d == 10:
+		id = agd.DeviceID(strings.Repeat("x", 300))
+	case d%2 == 1:
+		id = agd.DeviceID(fmt.Sprintf("DEV%04d", d-1))
+	default:
+		id = agd.DeviceID(fmt.Sprintf("dev%04d", d))
+	}
+	if _, ok := devNames.Load(id); !ok {
+		devNames.Store(id, d)
 	}
 
-	return agd.DeviceID(fmt.Sprintf("dev%04d", d))
+	return id
 }
 
 func devNum(id agd.DeviceID) int {
-	var d int
-	if _, err := fmt.Sscanf(string(id), "dev%d", &d); err == nil {
-		return d
-	}
-	if _, err := fmt.Sscanf(string(id), "DEV%d", &d); err == nil {
-		return d + 1
+	if v, ok := devNames.Load(id); ok {
+		return v.(int)
 	}
 
 	return -1
@@ -167,7 +188,7 @@ func ctryIndex(c geoip.Country) int {
 }
 
 func canonRecord(r *billstat.Record) rec {
-	return rec{N: int64(r.Queries), M: meta{T: r.Time.UnixNano(), C: ctryIndex(r.Country), A: uint32(r.ASN), P: uint8(r.Proto)}}
+	return rec{N: int64(uint32(r.Queries)), M: meta{T: r.Time.UnixNano(), C: ctryIndex(r.Country), A: uint32(r.ASN), P: uint8(r.Proto)}}
 }
 
 func canonRecords(rs billstat.Records) map[int]rec {
@@ -221,7 +242,7 @@ type flight struct {
 	snap    map[int]rec  // content of the batch when Upload was entered
 	after   map[int]rec  // content of the batch when Upload was released
 	lastCut map[int]meta // harness ghost: most recent meta per device when the batch was cut
-	verdict chan int // -1: succeed; e ≥ 0: fail with errKinds[e]
+	verdict chan int     // -1: succeed; e ≥ 0: fail with errKinds[e]
 	stamp   int64
 	ctx     context.Context
 	info    *ctxInfo
@@ -328,7 +349,7 @@ type trace struct {
 	hung      bool
 	// shape counters
 	nOK, nFail, nBlocked, nOverlap, nMergePresent, nMergeAbsent, nRecInFlight, nEmptyBatch, nNone, nCtx, nErrKinds int
-	finalTotals                                                                                   string
+	finalTotals                                                                                                    string
 }
 
 // overlapWait is how long an overlapping Refresh is given to reach the
@@ -1303,6 +1324,7 @@ func main() {
 		r.Notes = append(r.Notes, "concurrent campaign skipped: the sequential campaigns already found violations")
 	}
 	timed("grpc", func() { pbCampaign(x) })
+	timed("server", func() { glueCampaign(x) })
 
 	r.Finish()
 }
